@@ -341,6 +341,15 @@ class BackendProvider(ABC):
         """
         return None
 
+    def _compiled_namespace(self):
+        """Names available to generated code: Power and Divide are the interpreter's own operators
+        (integer results of Power, :undefined for a zero divisor, no complex numbers)."""
+        from ..dyads import eval_dyad_power, eval_dyad_divide
+        return {
+            '_kg_power': lambda a, b: eval_dyad_power(a, b, self),
+            '_kg_divide': lambda a, b: eval_dyad_divide(a, b, self),
+        }
+
     @staticmethod
     def _collect_params(ir):
         """Collect unique parameter names from IR tree in order."""
